@@ -2,38 +2,55 @@
    current file contents, whatever history of updates (valid, unresolvable, not parsing) and rebuilds led there.
    Statements only.  The compiler proper is a parameter of the session model (Model/Session.v): parse = parse_and_bind,
    extract = beff_core::extract as a function of the file manager's answers (hypothesis extract_ext, trusted base).
-   Scope: histories over a fixed set of files (parse is a function of file name and text); a module created during the
-   session is outside the model and is a listed finding (see Model/Session.v). *)
+   parse also depends on the names of the files that exist (import specifiers are resolved against them): the theorem is
+   for histories that update existing files, as the watcher's do; a module created during the session is refuted below
+   and is a listed finding. *)
 From Beff Require Import Model.Session Proofs.C14.
 
 Theorem C14_every_rebuild_answers_like_a_fresh_process :
-  forall (M Out : Type) (parse : string -> string -> option M) (extract : (string -> option M) -> Out * list string),
+  forall (M Out : Type) (parse : list string -> string -> string -> option M) (extract : (string -> option M) -> Out * list string),
     (forall g h, (forall f, g f = h f) -> fst (extract g) = fst (extract h)) ->
     forall (dk : list (string * string)) (ops : list sop),
+      updates_existing ops (names dk) ->
       Forall (fun od => fst od = fresh_build M Out parse extract (snd od))
              (run M Out parse extract (update M parse) ops (mkS dk [])).
 Proof.
-  intros M Out parse extract Hext dk ops. apply run_is_fresh; [exact Hext|].
-  intros f c H. discriminate H.
+  intros M Out parse extract Hext dk ops Hu. apply run_is_fresh; [exact Hext| |exact Hu].
+  intros f c ns H. discriminate H.
 Qed.
 
-(* the session keeps its invariant: every cached module was parsed from the text the file has now *)
+(* the session keeps its invariant: every cached module was parsed from the text the file has now, among the files that
+   exist now *)
 Theorem C14_cache_stays_coherent :
-  forall (M Out : Type) (parse : string -> string -> option M) (extract : (string -> option M) -> Out * list string) st,
+  forall (M Out : Type) (parse : list string -> string -> string -> option M) (extract : (string -> option M) -> Out * list string) st,
     coherent st ->
-    (forall f c, coherent (update M parse f c st)) /\ coherent (snd (rebuild M Out parse extract st)).
+    (forall f c, In f (names (disk st)) -> coherent (update M parse f c st)) /\ coherent (snd (rebuild M Out parse extract st)).
 Proof.
-  intros M Out parse extract st Hc. split; [intros f c; apply update_coherent; exact Hc|apply rebuild_coherent; exact Hc].
+  intros M Out parse extract st Hc. split; [intros f c Hin; apply update_coherent; assumption|apply rebuild_coherent; exact Hc].
 Qed.
 
 (* the pinned tree kept the old module when the new text did not parse: refuted (repaired by a fix: commit) *)
-Definition ex_parse (_ c : string) : option string := if String.eqb c "broken" then None else Some c.
+Definition ex_parse (_ : list string) (_ c : string) : option string := if String.eqb c "broken" then None else Some c.
 Definition ex_extract (g : string -> option string) : option string * list string := (g "a.ts", ["a.ts"]).
 Theorem C14_refuted_when_a_failed_parse_keeps_the_old_module :
-  exists ops, ~ Forall (fun od => fst od = fresh_build string (option string) ex_parse ex_extract (snd od))
+  exists ops, updates_existing ops ["a.ts"] /\
+              ~ Forall (fun od => fst od = fresh_build string (option string) ex_parse ex_extract (snd od))
                        (run string (option string) ex_parse ex_extract (update_keeping_stale string ex_parse) ops (mkS [("a.ts", "v1")] [])).
 Proof.
-  exists [Rebuild; Update "a.ts" "broken"; Rebuild]. intros H.
+  exists [Rebuild; Update "a.ts" "broken"; Rebuild]. split; [cbn; tauto|]. intros H.
+  inversion H as [|x l _ H2]; subst. inversion H2 as [|y l2 Hy _]; subst. vm_compute in Hy. discriminate Hy.
+Qed.
+
+(* outside the hypothesis: a module created during the session (the importer's resolutions stay those of the moment it was
+   parsed) — the unchanged code answers differently from a fresh process; listed finding import_resolution_frozen_in_cached_importer *)
+Definition imp_parse (ns : list string) (f c : string) : option string :=
+  if String.eqb f "entry.ts" then Some (if mem_str "b.ts" ns then "entry sees b" else "entry: b unresolved") else Some c.
+Definition imp_extract (g : string -> option string) : option string * list string := (g "entry.ts", ["entry.ts"]).
+Theorem C14_refuted_for_created_modules :
+  exists ops, ~ Forall (fun od => fst od = fresh_build string (option string) imp_parse imp_extract (snd od))
+                       (run string (option string) imp_parse imp_extract (update string imp_parse) ops (mkS [("entry.ts", "import b")] [])).
+Proof.
+  exists [Rebuild; Update "b.ts" "export type B = 1"; Rebuild]. intros H.
   inversion H as [|x l _ H2]; subst. inversion H2 as [|y l2 Hy _]; subst. vm_compute in Hy. discriminate Hy.
 Qed.
 
@@ -47,3 +64,4 @@ Proof. vm_compute. reflexivity. Qed.
 Print Assumptions C14_every_rebuild_answers_like_a_fresh_process.
 Print Assumptions C14_cache_stays_coherent.
 Print Assumptions C14_refuted_when_a_failed_parse_keeps_the_old_module.
+Print Assumptions C14_refuted_for_created_modules.
